@@ -36,6 +36,7 @@ class ElementTriN3(ElementHcurl):
         """Covariant Piola transformation.
         Overridden to allow for higher order"""
         orient = self.orient(mapping, i, tind)
+        sub = 'ijkl,il,k->jkl' if len(X.shape) == 2 else 'ijkl,ikl,k->jkl'
         target_swap = i
         if i < 9:
             edge_idx = i // 3
@@ -67,7 +68,7 @@ class ElementTriN3(ElementHcurl):
             invDF = mapping.invDF(X, tind)
             detDF = mapping.detDF(X, tind)
 
-            val_final = np.einsum('ijkl,il,k->jkl', invDF, phi, orient)
+            val_final = np.einsum(sub, invDF, phi, orient)
             curl_final = dphi / detDF * orient[:, None]
 
         else:
@@ -77,10 +78,10 @@ class ElementTriN3(ElementHcurl):
             invDF = mapping.invDF(X, tind)
             detDF = mapping.detDF(X, tind)
 
-            val_A = np.einsum('ijkl,il,k->jkl', invDF, phi_A, orient)
+            val_A = np.einsum(sub, invDF, phi_A, orient)
             curl_A = dphi_A / detDF * orient[:, None]
 
-            val_B = np.einsum('ijkl,il,k->jkl', invDF, phi_B, orient)
+            val_B = np.einsum(sub, invDF, phi_B, orient)
             curl_B = dphi_B / detDF * orient[:, None]
 
             if swap_condition == -1:
